@@ -204,6 +204,12 @@ def classify(prog, R, rule, fns, reviewed, skip=lambda s: False, auto=None):
             if not okg:
                 R.ob(rule, key, False, s_["at"], f"reviewed as safe because of a guard (`{e['reason'][:100]}…`) that is no longer in place: {whyg}")
                 continue
+        if e.get("completes"):
+            import shapes
+            lost = [(f.split("::")[-1], ks) for f, ks, or_err in e["completes"] if shapes.always_completes(prog, f, ks, or_error=or_err) is not True]
+            if lost:
+                R.ob(rule, key, False, s_["at"], f"reviewed as unreachable because of the grammar fact `{e['reason'][:110]}…`, which no longer holds: {lost} can return without completing such a node" + (" or reporting a syntax error" if any(x[2] for x in e["completes"]) else ""))
+                continue
         broken = premise_failures(prog, R.pid, e.get("premises"))
         if broken:
             R.ob(rule, key, False, s_["at"], f"reviewed as unreachable because of `{e['reason'][:120]}…`, but that premise no longer holds on this tree: {broken[:3]}")
